@@ -68,6 +68,8 @@ def run(pid, tier):
                 ls.append('R %s %s %s' % (hx(p), fl, ' '.join(hx(n) + ('=' + hx(v) if v is not None else '') for n, v in attrs)))
             ls.append('F -' if total_guess < (90 if tier == 'quick' else 400) else 'F -' )
             ls.append('F ' + hx(f))
+            if f == flt[1]:
+                ls += ['L ' + hx(g) for g in FILTERS[1:]]      # every filter of the catalogue: listing only
             appdefined = any(p == '.well-known/core' for p, _f, _a in t)   # then the application's own handler answers the GET
             for szx in (() if appdefined else (0, 2, 6) if tier == 'quick' else range(7)):
                 ls.append('G %d -' % szx)
